@@ -208,10 +208,20 @@ fn as_str(b: &[u8]) -> &str {
     std::str::from_utf8(b).expect("harness feeds only valid UTF-8 to the char-wise automaton")
 }
 
+/// Marks a result list that was cut off because the iterator kept yielding (C13: every search
+/// returns after finitely many steps; no search can yield more matches than 256 per position here).
+pub const RUNAWAY: M = (usize::MAX, usize::MAX, u64::MAX);
+
 macro_rules! collect {
-    ($it:expr) => {{
+    ($it:expr, $n:expr) => {{
         let mut v: Vec<M> = Vec::new();
+        let cap = 512 * ($n + 4);
         for m in $it {
+            if v.len() >= cap {
+                v.push(RUNAWAY);
+                break;
+            }
+            // start() = end - length can underflow for a corrupt record: keep the raw fields apart
             v.push((m.start(), m.end(), u64::from(m.value())));
         }
         v
@@ -276,32 +286,32 @@ impl Auto {
     pub fn run(&self, m: Method, hay: &[u8]) -> Vec<M> {
         in_lib(|| match self {
             Auto::B(a) => match m {
-                Method::Find => collect!(a.find_iter(hay)),
-                Method::FindIt => collect!(a.find_iter_from_iter(hay.iter().copied())),
-                Method::Ovl => collect!(a.find_overlapping_iter(hay)),
-                Method::OvlIt => collect!(a.find_overlapping_iter_from_iter(hay.iter().copied())),
-                Method::NoSuf => collect!(a.find_overlapping_no_suffix_iter(hay)),
+                Method::Find => collect!(a.find_iter(hay), hay.len()),
+                Method::FindIt => collect!(a.find_iter_from_iter(hay.iter().copied()), hay.len()),
+                Method::Ovl => collect!(a.find_overlapping_iter(hay), hay.len()),
+                Method::OvlIt => collect!(a.find_overlapping_iter_from_iter(hay.iter().copied()), hay.len()),
+                Method::NoSuf => collect!(a.find_overlapping_no_suffix_iter(hay), hay.len()),
                 Method::NoSufIt => {
-                    collect!(a.find_overlapping_no_suffix_iter_from_iter(hay.iter().copied()))
+                    collect!(a.find_overlapping_no_suffix_iter_from_iter(hay.iter().copied()), hay.len())
                 }
-                Method::Lm => collect!(a.leftmost_find_iter(hay)),
+                Method::Lm => collect!(a.leftmost_find_iter(hay), hay.len()),
             },
             Auto::C(a) => {
                 let s = as_str(hay);
                 match m {
-                    Method::Find => collect!(a.find_iter(s)),
+                    Method::Find => collect!(a.find_iter(s), hay.len()),
                     Method::FindIt => {
-                        collect!(unsafe { a.find_iter_from_iter(s.bytes()) })
+                        collect!(unsafe { a.find_iter_from_iter(s.bytes()) }, hay.len())
                     }
-                    Method::Ovl => collect!(a.find_overlapping_iter(s)),
+                    Method::Ovl => collect!(a.find_overlapping_iter(s), hay.len()),
                     Method::OvlIt => {
-                        collect!(unsafe { a.find_overlapping_iter_from_iter(s.bytes()) })
+                        collect!(unsafe { a.find_overlapping_iter_from_iter(s.bytes()) }, hay.len())
                     }
-                    Method::NoSuf => collect!(a.find_overlapping_no_suffix_iter(s)),
+                    Method::NoSuf => collect!(a.find_overlapping_no_suffix_iter(s), hay.len()),
                     Method::NoSufIt => {
-                        collect!(unsafe { a.find_overlapping_no_suffix_iter_from_iter(s.bytes()) })
+                        collect!(unsafe { a.find_overlapping_no_suffix_iter_from_iter(s.bytes()) }, hay.len())
                     }
-                    Method::Lm => collect!(a.leftmost_find_iter(s)),
+                    Method::Lm => collect!(a.leftmost_find_iter(s), hay.len()),
                 }
             }
         })
